@@ -170,7 +170,8 @@ def evaluator_part(chk, tier, seed, programs):
     cases, meta = [], []
     for name, src in programs:
         for s in (light if (tier == "quick" and name.startswith(("gen:", "inh:"))) else sch):
-            c = {"k": "eval", "src_bytes": list(src), "gc": s, "counts": True,
+            # every other run also collects while only the request's value is held (before manifesting it)
+            c = {"k": "eval", "src_bytes": list(src), "gc": s, "counts": True, "hold_gc": len(cases) % 2 == 1,
                  "max_stack": 1000000 if name.startswith("gen:deep") else 200}
             if name.startswith("gen:deep") and s.get("mode") == "period" and s.get("period", 9) < 50:
                 c["gc"] = {"mode": "period", "period": 997, "phase": s.get("phase", 0)}   # every-step collection of 10^5 objects is quadratic
